@@ -37,6 +37,8 @@ PoolC16 == <<
   \* IDN locations, also in non-first position of a location list
   HideR({H("a.com"), H("пример.рф"), E("пример")}, ".idn"), UnhideR({H("b.com"), H("s.пример.рф")}, ".idn"),
   HideR({H("bücher.a.com"), NH("a.com")}, ".idn2"),
+  \* two IDN locations that cover disjoint hosts (each must be converted on its own), also negated
+  HideR({H("пример.рф"), H("bücher.a.com")}, ".idn3"), HideR({NH("s.пример.рф"), NH("bücher.a.com")}, ".idn4"),
   \* hosts whose name contains the text of their public suffix before the suffix itself
   HideR({H("a.internal")}, ".int"), HideR({E("a"), NH("t.s.a.internal")}, ".ient"), JsR({H("a.internal")}, "sc1, i", {}),
   HideR({E("comcast")}, ".cc"), HideR({E("internet")}, ".inet"), UnhideR({E("s.comcast")}, ".cc"), HideR({H("net")}, ".tldnet"),
